@@ -195,6 +195,9 @@ func generateJWS(compact string, req *signature.SignRequest, certs []*x509.Certi
 
 	rawCerts := make([][]byte, len(certs))
 	for i, cert := range certs {
+		if cert == nil {
+			return nil, &signature.InvalidSignRequestError{Msg: fmt.Sprintf("certificate chain returned by the signer has no certificate at position %d", i)}
+		}
 		rawCerts[i] = cert.Raw
 	}
 
